@@ -275,7 +275,16 @@ func (tpl *Template) ExecuteBlocks(context Context, blocks []string) (map[string
 						return nil, err
 					}
 				}
+				// block.Super: the definitions of the templates further up
+				var supers []*NodeWrapper
+				for p := t.parent; p != nil; p = p.parent {
+					if w, has := p.blocks[blockName]; has {
+						supers = append([]*NodeWrapper{w}, supers...)
+					}
+				}
+				ctx.Private["block"] = tagBlockInformation{ctx: ctx, wrappers: supers}
 				bErr := blockWrapper.Execute(ctx, buffer)
+				delete(ctx.Private, "block")
 				if bErr != nil {
 					return nil, bErr
 				}
